@@ -80,7 +80,7 @@ pub fn prop(id: &str) -> Option<&'static PropInfo> {
 /// Swarm: every run of a property draws its own workload mix.
 pub fn profile_for(id: &str, rng: &mut Rng) -> Profile {
     let mut p = Profile::base(id);
-    p.max_events = rng.range(12, 45) as u32;
+    p.max_events = rng.range(12, 64) as u32;
     p.max_sessions = rng.range(1, 3) as u32;
     p.w_batch = *rng.pick(&[0, 4, 8]);
     p.w_failing = *rng.pick(&[0, 4, 8]);
@@ -135,7 +135,7 @@ pub fn profile_for(id: &str, rng: &mut Rng) -> Profile {
             p.max_tables = 2;
             p.w_ddl = 3;
             p.max_inserts_per_table = 100;
-            p.guards.retain(|g| g != "more_than_18_inserts_per_table");
+            p.guards.retain(|g| g != "more_than_32_inserts_per_table");
             p.guards.push("more_than_100_inserts_per_table".into());
             p.min_events = 90;
             p.max_events = rng.range(100, 170) as u32;
@@ -158,7 +158,7 @@ pub fn profile_for(id: &str, rng: &mut Rng) -> Profile {
                 p.text_cols = true;
                 p.pad_text = 450;
                 p.max_inserts_per_table = 90;
-                p.guards.retain(|g| g != "more_than_18_inserts_per_table");
+                p.guards.retain(|g| g != "more_than_32_inserts_per_table");
                 p.guards.push("more_than_100_inserts_per_table".into());
                 p.min_events = 30;
                 p.max_events = rng.range(40, 90) as u32;
@@ -247,7 +247,7 @@ pub fn profile_for(id: &str, rng: &mut Rng) -> Profile {
                 p.max_inserts_per_table = 100;
                 p.max_tables = 2;
                 p.max_events = rng.range(50, 90) as u32;
-                p.guards.retain(|g| g != "more_than_18_inserts_per_table");
+                p.guards.retain(|g| g != "more_than_32_inserts_per_table");
                 p.guards.push("more_than_100_inserts_per_table".into());
                 p.min_events = 25;
                 p.max_events = rng.range(30, 60) as u32;
@@ -276,6 +276,14 @@ pub fn profile_for(id: &str, rng: &mut Rng) -> Profile {
             }
         }
         _ => {}
+    }
+    // experiment knob (never set by the registered checks): longer lives per table
+    if let Ok(v) = std::env::var("AXSIM_MAXINS") {
+        let n: u32 = v.parse().unwrap_or(18);
+        p.max_inserts_per_table = n;
+        p.guards.retain(|g| g != "more_than_32_inserts_per_table" && g != "more_than_100_inserts_per_table");
+        p.min_events = p.min_events.max(n / 2);
+        p.max_events = p.max_events.max(n * 2);
     }
     // finding-hunting mode: drop the named guards (never set by the registered checks)
     if let Ok(ng) = std::env::var("AXSIM_NOGUARD") {
